@@ -1,0 +1,32 @@
+//go:build verif
+
+package verifspec
+
+// Contracts and site claims for reproducible builds (property C17).  Every range over a map in the compiler is
+// enumerated mechanically on each run and must be discharged by an order-independence rule (see /verif DESIGN.md);
+// only rules that rest on an additional assumption need a claim here.
+
+// build.pruneImports, first map range: each iteration edits only the import spec file.Imports[index] of its own entry
+// and deletes its own key; `unused` maps distinct names to distinct indexes (it is built from file.Imports by position).
+//@ site build.pruneImports 1 K-OWNED
+
+// The files of a package are ordered by their real file name only (not by //line directives, not by listing order).
+//@ pure fileNameOf(fset int, pos int) int
+//@ pure posOf(f int) int
+//@ pure fileref(f int) int
+//@ extern go/ast.File.Pos
+//@   param f
+//@   assigns nothing
+//@   ensures result == posOf(ref(f))
+//@ extern go/token.FileSet.File
+//@   param s p
+//@   assigns nothing
+//@   ensures result != nil && fileref(ref(result)) == fileNameOf(ref(s), p)
+//@ extern go/token.File.Name
+//@   param f
+//@   assigns nothing
+//@   ensures str(result) == fileref(ref(f))
+//@ func compiler/sources.Sources.getFileName
+//@ property C17 C10
+//@   requires file != nil && s.FileSet != nil
+//@   ensures str(result) == fileNameOf(ref(s.FileSet), posOf(ref(file)))
